@@ -115,7 +115,7 @@ def mc_files(scn_name, tag, ts_of, sched_of, invariants=(), defects=(), **kw):
     """Render MC_<tag>.tla/.cfg for Archive.tla.  ts_of: id -> set of timestamps,
     sched_of: list (per InstSeq entry) of sets of booleans."""
     scn = SCN[scn_name]
-    c = dict(max_env=1, max_crash=1, max_runs=2, max_prunes=1, pad=0, ticks={1, 3}, maxes={1},
+    c = dict(max_env=1, max_crash=1, max_runs=2, max_prunes=1, pad=0, ticks={1, 3}, maxes={1, 2, 3},
              tick_in_listing=False, expiry=EXPIRY, batch=BATCH, now0=NOW0, spare=None,
              max_reads=0, split_read=False)
     c.update(kw)
@@ -321,6 +321,7 @@ def labels_to_history(scn_name, labels, batch=BATCH, expiry=EXPIRY, real=None, s
     close_run(True)
     if steps and steps[-1][0] == 'Archive' and steps[-1][4]:
         steps.append(['Archive', mode, batch, expiry * UNIT // 1000, 0, []])
+    steps.append(['Prune', mode, 3, 0])       # above / at the few snapshots a model run leaves
     steps.append(['Prune', mode, 1, 0])
     return dict(setup=_setup_from_seeds(scn, sched, seeds, real=real, stale=stale), steps=steps)
 
@@ -408,7 +409,7 @@ def rand_history(rng):
         return out
 
     steps = []
-    maxc = rng.choice([1, 1, 2])
+    maxc = rng.choice([1, 2, 3, 4])
     for _round in range(rng.randint(1, 2)):
         for _ in range(rng.randint(0, 2)):
             steps.append(env())
@@ -419,6 +420,43 @@ def rand_history(rng):
                   ['Archive', 'server', batch, expiry_s, 0, inject('server')],
                   ['Prune', 'server', maxc, 0]]
     return dict(setup=setup, steps=steps)
+
+
+def retention_histories(rng, count):
+    """Snapshot retention (_zk.cleanup): N snapshots of every history kind (batch 1, N
+    expired terminal events of N finished instances + N expired server events), then
+    cleanup_*_history with a retention count far above (2N+1), twice (2N), around half
+    (2N-1, 2N-2: N just over half of it), just above (N+1), at (N) and below (N-1, 1) the
+    number of snapshots present; a second round adds snapshots and prunes again."""
+    out = []
+    for _ in range(count):
+        n = rng.choice([3, 3, 4, 6])
+        insts = ['proid.ret#%010d' % i for i in rng.sample(POOL, n)]
+        servers = ['srv%d' % i for i in rng.sample(range(1, 9), rng.randint(1, 3))]
+        setup = []
+        for j, inst in enumerate(insts):
+            setup += [['SetNow', 1000 + 1000 * j], ['Sched', inst],
+                      ['Event', 'trace', inst, rng.choice(['finished', 'killed'])],
+                      ['Event', 'server', rng.choice(servers), 'server_state', 'r%d' % j]]
+        setup.append(['SetNow', 30000])
+        choices = [2 * n + 1, 2 * n, 2 * n - 1, 2 * n - 2, n + 1, n + 1, n, n - 1, 1]
+        steps = [['Archive', 'trace', 1, 3, 0, []], ['Archive', 'finished', 1, 3, 0, []],
+                 ['Archive', 'server', 1, 3, 0, []]]
+        first = {}
+        for kind in ad.KINDS:
+            first[kind] = rng.choice(choices)
+            steps.append(['Prune', kind, first[kind], 0])
+        # second round: one more snapshot per kind, then a retention count around what is left
+        extra = 'proid.ret#%010d' % rng.choice([p for p in POOL if 'proid.ret#%010d' % p not in insts])
+        steps += [['Sched', extra], ['Event', 'trace', extra, 'finished'],
+                  ['Event', 'server', servers[0], 'server_state', 'late'], ['Tick', 10000],
+                  ['Archive', 'trace', 1, 3, 0, []], ['Archive', 'finished', 1, 3, 0, []],
+                  ['Archive', 'server', 1, 3, 0, []]]
+        for kind in ad.KINDS:
+            left = min(n, first[kind]) + 1
+            steps.append(['Prune', kind, rng.choice([2 * left - 1, left + 1, left, left - 1]), 0])
+        out.append(dict(setup=setup, steps=steps))
+    return out
 
 
 def exhaustive_populations(rng, limit):
@@ -596,6 +634,8 @@ def run(ctx):
         base.append(('mixed', 'rnd', rand_history(rng)))
     for h in exhaustive_populations(rng, 12 if ctx.quick else 400):
         base.append(('trace', 'pop', h))
+    for h in retention_histories(rng, 10 if ctx.quick else 300):
+        base.append(('mixed', 'ret', h))
     hist = list(base)
     per_call = 2 if ctx.quick else None
     budget = 450 if ctx.quick else 14000
